@@ -66,3 +66,27 @@ Proof.
 Qed.
 
 End Delivery.
+
+(* ---------- an error stops the story ---------- *)
+Section ErrorStops.
+Variable I : iface.
+
+(* with an error on record the story cannot continue ... *)
+Lemma error_cannot_continue (w : world) :
+  ss_errors (w_state w) <> [] ->
+  forall o w', m_can_continue w = (o, w') -> (forall s, o <> OPanic s) -> o = OOk false /\ w' = w.
+Proof.
+  intros He o w' H Hp.
+  unfold m_can_continue, m_read, mbind, get_state, gets, lift, ss_can_continue in H.
+  assert (Hne : forall k e, ss_cur_pointer (w_state w) <> Err k e).
+  { intros k e. unfold ss_cur_pointer, cs_cur_element, cs_cur_thread, unwrap_or_panic.
+    destruct (last_opt (cs_threads (ss_cs (w_state w)))) as [t|]; cbn; try discriminate.
+    destruct (last_opt (th_cs t)); cbn; discriminate. }
+  destruct (ss_cur_pointer (w_state w)) as [p|k e|s]; cbn in H.
+  - injection H as <- <-. split; [|reflexivity].
+    unfold ss_has_error. destruct (ss_errors (w_state w)); [contradiction|].
+    now rewrite Bool.andb_false_r.
+  - exfalso. exact (Hne k e eq_refl).
+  - injection H as <- <-. exfalso. eapply Hp. reflexivity.
+Qed.
+End ErrorStops.
